@@ -2630,8 +2630,17 @@ class DiskObjectStore(PackBasedObjectStore):
             sha = hex_to_sha(cast(ObjectID, sha))
 
         midx = self.get_midx()
-        if midx is not None and sha in midx:
-            return True
+        if midx is not None:
+            result = midx.object_offset(sha)
+            if result is not None:
+                # Only trust the MIDX if the pack it names still holds the
+                # object: after a repack or gc the MIDX may be stale.
+                pack_name, _offset = result
+                try:
+                    if sha in self._get_pack_by_name(pack_name):
+                        return True
+                except (KeyError, PackFileDisappeared):
+                    pass
 
         # Fall back to checking individual packs
         return super().contains_packed(sha)
